@@ -85,6 +85,11 @@ fn idx_of(p: PointerOffset) -> usize {
 }
 
 fn d_send(s: &Sender, sh: &Arc<Mutex<DShared>>, overflow: bool, weak: bool) {
+    // usage protocol of the connection (what iceoryx2's Sender does in retrieve_returned_samples before every
+    // delivery): the sender empties the completion queue before it sends. The queue is dimensioned
+    // (buffer + borrow + 1) for exactly that protocol; a sender that keeps sending fresh offsets without ever
+    // reclaiming can legitimately make a later release fail with RetrieveBufferFull.
+    while d_reclaim(s, sh) {}
     // take any offset from the pool
     let i = {
         let g = sh.lock().unwrap();
